@@ -19,6 +19,7 @@ except Exception:
 if schedx_part is not None and not all(hasattr(schedx_part, f) for f in ("correspond_x", "direct_x", "search_x")):
     schedx_part = None
 
+LEAK_LIMIT = 1 << 15          # bytes that may remain allocated at a successful exit (stdio, getopt, thread bookkeeping)
 LIBC_SLACK = 1 << 20          # stdio buffers, per-thread allocator bookkeeping, getopt, ... (not modelled)
 
 
@@ -72,12 +73,12 @@ class Check(PropertyCheck):
         try:
             rc, out, err, to = L.run_file(exe, ["-n", str(n), "-%d" % level] + list(extra), ip,
                                           env={"LD_PRELOAD": so, "SCHEDC_HEAP_OUT": hp}, timeout=300)
-            peak = blocks = -1
+            peak = blocks = live = -1
             if os.path.exists(hp):
                 raw = open(hp, "rb").read()
                 if len(raw) >= 24:
                     live, peak, blocks = struct.unpack("<qqq", raw[:24])
-            return {"rc": rc, "timeout": to, "peak": peak, "blocks": blocks, "out_len": len(out)}
+            return {"rc": rc, "timeout": to, "peak": peak, "blocks": blocks, "live": live, "out_len": len(out)}
         finally:
             for p in (hp, ip):
                 if os.path.exists(p):
@@ -159,14 +160,47 @@ class Check(PropertyCheck):
             if b is not None and m["peak"] > b + LIBC_SLACK:
                 v.append(Violation("heap-above-bound", "peak live heap %d bytes exceeds the proved bound B(%d)=%d (+%d slack): %s" % (
                     m["peak"], n, b, LIBC_SLACK, desc), payload))
+            if m.get("live", 0) > LEAK_LIMIT:
+                v.append(Violation("heap-not-released", "%d bytes still allocated at a successful exit (a per-block or per-chunk buffer that is "
+                                   "never released grows with the input): %s" % (m["live"], desc), payload))
             peaks.setdefault((kind, n, ultra), []).append((mb, m["peak"]))
         # "flat in the input size" = the same fixed bound B(n) holds for every input size measured above; the
         # series per (data, n) is recorded in the evidence histogram (how full the pipeline gets is timing dependent)
+        if schedx_part and not getattr(self, "_x_done", False):
+            v += self.leaks_x()
         if schedx_part and not getattr(self, "_x_done", False):
             self._x_done = True
             # decompression: peak live heap against B(n), leaked unord blocks (F3), crashes of the replayed runs
             v += [x for x in (schedx_part.direct_x(self, leaks=True) or [])]
         return v[:4]
+
+    def leaks_x(self):
+        """Decompression: bytes still allocated at a successful exit must not depend on the input (valid inputs with few / many
+        rejected block candidates, few / many streams; speculation busy at n >= 2).  A buffer that is not released per block,
+        candidate or stream shows up here long before it moves the peak."""
+        sp = schedx_part
+        exe = vlib.build_lbzip2("rel")
+        work = os.path.join(self.work, "heap")
+        rng = vlib.SplitMix(self.seed + 5)
+        quick = self.tier == "quick"
+        inputs = [("%d rejected candidates" % k, sp.many_candidates(rng, k, 300)) for k in ((8, 32) if quick else (8, 32, 128))]
+        inputs += [("%d small streams with a false magic each" % k, sp.gen_magic_bitmaps(rng, k)) for k in ((200, 800) if quick else (200, 800, 4000))]
+        jobs = [(name, c, n, ig) for name, c in inputs for n in (2, 4, 8) for ig in (None, 64)]
+
+        def one(j):
+            name, c, n, ig = j
+            return sp.heap_run(exe, c, n, None if ig is None else rng.below(1000), ig, work)
+        res = L.pmap(one, jobs, par=6)
+        out, table = [], {}
+        for (name, c, n, ig), (rc, o, e, h) in zip(jobs, res):
+            table["%s/n%d/ig%s" % (name, n, ig)] = None if not h else {"live_at_exit": h[0], "peak": h[1], "rc": rc}
+            if rc == 0 and h and h[0] > LEAK_LIMIT and not out:
+                out.append(Violation("heap-not-released:decompress",
+                                     "valid input (%s), `lbzip2 -dc -n%d`%s: %d bytes still allocated at exit status 0 (fixed small constant "
+                                     "expected: everything is released in uninit)" % (name, n, "" if ig is None else " with %d-byte input blocks" % ig, h[0]),
+                                     {"input_hex": c.data.hex()[:2000000], "n": n, "in_granul": ig, "live_at_exit": h[0], "kind": "leak"}))
+        self.notes.append("decompression: live heap bytes at exit / peak: %s" % json.dumps(table)[:1500])
+        return out
 
     def search(self):
         # a broken obligation: measure at more worker counts and both modes with a large input
